@@ -174,7 +174,8 @@ namespace nmtools::utl
         }
         ~vector()
         {
-            if (buffer_ && (buffer_size_ > 0)) {
+            // NOTE: vector(0) still owns the (zero-sized) allocation
+            if (buffer_) {
                 allocator.deallocate(buffer_);
             }
         }
